@@ -127,6 +127,9 @@ func GenCatalogue() []GenLayout {
 	add("bad", "29.97 fps, 59 frames = 1968.633 ms: loop not a whole number of ms", "bad_ms_ntsc",
 		VideoRep("V1", 30000, 1001, UniformDurs(1, 59*1001)))
 
+	add("bad", "timescale 89910 with 3000-tick frames, 4 x 60 frames = 720000 ticks = 8008.008 ms: loop not a whole number of ms", "bad_ms_89910",
+		VideoRep("V1", 89910, 3000, UniformDurs(4, 180000)))
+
 	add("bad", "two video representations of 8 s and 6 s", "bad_disagree",
 		VideoRep("V1", 90000, 3000, v2s),
 		VideoRep("V2", 90000, 3000, UniformDurs(3, 180000)))
